@@ -128,6 +128,16 @@ CHECKS = {
          "checked exactly on integer affine maps (MC_C03 aff family) and Hurwitz quaternions (MC_C04)."),
    note="Trusted: TLC, harness rot.rs/lin.rs. Tolerance 4e-5 (f32 involved) / 1e-11 (f64 only). Rotations within 1e-3 of 0/pi about arbitrary axes not enumerated.",
    ref="5 (C05)"),
+ "C10": dict(
+   technique="TLA+ exact T*R*S composition over the ring (scales +-2^j, grid rotations, integer translations) with TLC-checked determinant/orthogonality theorems; replay of every constructor and relational decomposition checks",
+   text=("MC_C10 defines Compose(s,R,t) = T R S exactly (columns of R scaled, translation last) and TLC checks det = product of scales, "
+         "orthogonal columns of the given lengths and the determinant-sign predicate on every enumerated case: all 8 (3-D) / 4 (2-D) sign "
+         "patterns x magnitude patterns x dense grid rotations x translations. The harness compares each from_* constructor and the "
+         "documented product of elementary constructors on Mat4/DMat4/Affine3A/DAffine3/Affine2/DAffine2/Mat3/Mat3A/DMat3/Mat2 with the "
+         "exact matrix (last row/column exactly), and checks to_scale_rotation_translation / to_scale_angle_translation relationally: "
+         "translation exact, unit rotation, negative x scale iff det < 0, recomposition reproduces the transform."),
+   note="Trusted: TLC, harness rot.rs. Scale magnitudes are powers of two; arbitrary magnitudes in [1e-3,1e3] are not enumerated.",
+   ref="5 (C10)"),
 }
 
 PENDING = {}
